@@ -25,6 +25,11 @@ func (c *Core) VerifAgentFlush() {
 	c.agentManager.mux.MessageReceiver() <- agent.SyscallRequestMessage{Sender: bpv7.DtnNone(), Request: "verif-flush"}
 }
 
+// VerifAgentMarker pushes a message for the given endpoint through the agent multiplexer (agents ignore it).
+func (c *Core) VerifAgentMarker(eid bpv7.EndpointID) {
+	c.agentManager.mux.MessageReceiver() <- agent.SyscallRequestMessage{Sender: eid, Request: "verif-marker"}
+}
+
 // VerifCloseAgents shuts the agent manager down (Core.Close leaves it running).
 func (c *Core) VerifCloseAgents() { _ = c.agentManager.Close() }
 
